@@ -250,6 +250,23 @@ func (c *Ctx) WriteEvidence(level, rule string, cov *Cov, assumptions []string, 
 	for _, k := range keys {
 		m[k] = cov.Extra[k]
 	}
+	// schema: the typed keys must have their types (free text goes to a *_note key)
+	if v, ok := m["exhaustive"]; ok {
+		if _, isBool := v.(bool); !isBool {
+			m["exhaustive_note"] = v
+			m["exhaustive"] = false
+		}
+	}
+	for _, k := range []string{"states", "transitions", "obligations", "discharged"} {
+		if v, ok := m[k]; ok {
+			switch v.(type) {
+			case int, int64:
+			default:
+				m[k+"_note"] = v
+				delete(m, k)
+			}
+		}
+	}
 	if len(c.known) > 0 {
 		m["known_findings_hit"] = c.known
 	}
